@@ -166,6 +166,29 @@ def body(n, k, s, b):
         encode.support_deprecated_rabbitmq(False)
 '''
 
+STEP_LONGKEY = '''
+def body(n, k):
+    # names around the 128-character truncation threshold: the same table encoded again and again
+    legacy = set_mode(%(mode)d)
+    try:
+        s0 = snapshot()
+        key = "A" * 127 + k
+        t = hx.table([(key, n)])
+        r1 = attempt(encode.field_table, t)
+        ok = state_ok(s0, lambda: attempt(encode.field_table, t))
+        r2 = attempt(encode.field_table, hx.table([(key, n)]))
+        r3 = attempt(encode.field_table, t)
+        ok = ok and r1[0] == 'ok' and r2[0] == 'ok' and r3[0] == 'ok'
+        ok = ok and list(r1[1]) == list(r2[1]) and list(r1[1]) == list(r3[1])
+        ok = ok and ref.equal(hx.fix(r1[1]), ref.table(hx.table([(key[:128], n)]), legacy))
+        m1 = attempt(lambda: frame.marshal(commands.Queue.Declare(arguments=hx.table([(key, n)])), 1))
+        m2 = attempt(lambda: frame.marshal(commands.Queue.Declare(arguments=hx.table([(key, n)])), 1))
+        ok = ok and m1[0] == 'ok' and m2[0] == 'ok' and list(m1[1]) == list(m2[1])
+        return ok and state_ok(s0, lambda: attempt(encode.field_table, t))
+    finally:
+        encode.support_deprecated_rabbitmq(False)
+'''
+
 STEP_DECODE = '''
 def body(data):
     s0 = snapshot()
@@ -353,6 +376,15 @@ def partitions(tier, seed):
                           bound='encode_table_value / field_table on a nested value with an unbounded integer, switch %s'
                                 % ('on' if mode else 'off'),
                           rep={'n': 40000, 'k': 'k', 's': 'x', 'b': True}))
+    for mode in (0, 1):
+        for kl in (1, 2):
+            parts.append(Part('step_longkey_%d_mode%d' % (127 + kl, mode), [('n', 'int'), ('k', 'str')],
+                              ['-2**40 <= n <= 2**40', 'len(k) == %d' % kl] + ['k[%d] <= "\\x7f"' % i for i in range(kl)],
+                              STEP_LONGKEY % {'mode': mode}, PRE, 280 if q else 480, family='step_lemma',
+                              bound='encode.field_table three times and frame.marshal twice on a table whose name has '
+                                    '%d characters (the last %d arbitrary ASCII; truncation threshold 128), '
+                                    'switch %s' % (127 + kl, kl, 'on' if mode else 'off'),
+                              rep={'n': 40000, 'k': 'kz'[:kl]}))
     for n in ((8, 12) if q else (8, 12, 14)):
         parts.append(Part('step_decode_%d' % n, [('data', 'bytes')],
                           ['len(data) == %d' % n], STEP_DECODE % {'n': n}, PRE,
